@@ -170,6 +170,32 @@ def to_number(value: JSValue) -> Union[int, float]:
     return float("nan")
 
 
+def number_to_string(value: float) -> str:
+    """Number::toString for a finite double: the shortest digits that round-trip,
+    laid out the ECMAScript way (exponent notation only outside [1e-6, 1e21))."""
+    if value == 0:
+        return "0"  # both zeros print as "0"
+    if value < 0:
+        return "-" + number_to_string(-value)
+    mantissa, _, exponent = repr(value).partition("e")
+    int_part, _, frac_part = mantissa.partition(".")
+    digits = int_part + frac_part
+    point = len(int_part) + (int(exponent) if exponent else 0)
+    stripped = digits.lstrip("0")
+    point -= len(digits) - len(stripped)
+    digits = stripped.rstrip("0") or "0"
+    k, n = len(digits), point
+    if k <= n <= 21:
+        return digits + "0" * (n - k)
+    if 0 < n <= 21:
+        return digits[:n] + "." + digits[n:]
+    if -6 < n <= 0:
+        return "0." + "0" * (-n) + digits
+    e = n - 1
+    head = digits if k == 1 else digits[0] + "." + digits[1:]
+    return head + "e" + ("+" if e >= 0 else "-") + str(abs(e))
+
+
 def to_string(value: JSValue) -> str:
     """Convert a JavaScript value to string."""
     if value is UNDEFINED:
@@ -187,14 +213,7 @@ def to_string(value: JSValue) -> str:
             return "Infinity"
         if value == float("-inf"):
             return "-Infinity"
-        # Handle -0
-        if value == 0 and math.copysign(1, value) < 0:
-            return "0"
-        # Format float nicely
-        s = repr(value)
-        if s.endswith(".0"):
-            return s[:-2]
-        return s
+        return number_to_string(value)
     if isinstance(value, str):
         return value
     # TODO: Handle objects with toString
